@@ -15,6 +15,9 @@ CHECKS = {
  "C08": dict(cat="model_checking", design="3/C08", technique="TLA+ state machine of the size-class grid (PBM.tla) explored by TLC over all operation histories up to a bounded length; real PopulationBalanceModel bound by TLC-predicted attributes after every operation of the same histories",
              text="Grid consistency is an invariant and extension/re-mesh/adaptive/reset laws are action properties checked by TLC on every history of <=3-4 operations from several grids; the as-built re-mesh that loses a narrow spike is a named deviation (known finding). The code executes the same alphabet (all histories <=2-3, seeded 4-6) and every public attribute after every operation must equal the specification's exact prediction, which also decides purity of the moment functions.",
              note="tiny exact domain (grids from 0, <=6 classes, populations <=7, one re-mesh per distribution) because exact re-meshing overflows TLC's 32-bit rationals; revert only after a backup"),
+ "C09": dict(cat="model_checking", design="3/C09", technique="TLA+ specs of the composition cache (HashTable.tla) and of query memoisation (ThermoCache.tla) model-checked by TLC; real objects bound by trace validation of query/cache-control histories",
+             text="The cache clause is decided by HashTable.tla: TLC explores all enable/precision/clear/add/retrieve histories and HashTable_Trace.tla accepts an execution of the real HashTable only if every hit/miss, returned value and table size equals the specification's (keys are exact integers, so int32 wrap-around is visible). The purity clause for pycalphad-backed queries is decided by validating query histories against a memo specification.",
+             note="domain points have float keys equal to their exact keys (self-checked); histories bounded (<=4 exhaustive, <=10 seeded)"),
 }
 
 NOT_APPLICABLE = {
